@@ -25,11 +25,9 @@ theorem run_askBool (env : Prog.Env) (q : Ask) :
   simp only [askBool, Prog.run_bind, Prog.run_query]
   cases env.answer q <;> simp
 
-theorem run_hardwareDetailsOK (env : Prog.Env) (der : Bytes) :
-    Prog.run env (hardwareDetailsOK der) = true ↔
-      ∃ exts details, env.answer (.sanView der) = .san exts ∧ Tpm.detailsFromSan exts = some details := by
-  simp only [hardwareDetailsOK, Prog.run_bind, Prog.run_query]
-  cases env.answer (.sanView der) <;> simp [Option.isSome_iff_exists]
+theorem run_hardwareDetailsOK (c : CertView) :
+    hardwareDetailsOK c = true ↔ ∃ details, Tpm.detailsFromSan (sanViews c) = some details := by
+  simp only [hardwareDetailsOK, Option.isSome_iff_exists]
 
 theorem run_askBytes (env : Prog.Env) (q : Ask) (b : Bytes) :
     Prog.run env (askBytes q) = some b ↔ env.answer q = .bytes b := by
@@ -571,7 +569,7 @@ theorem tpm_iff (env : Prog.Env) (o : AttObj) (h : Bytes) (res : Result) :
     have hsig' : Prog.run env (askBool (.x509CheckSig der (Cose.algX509 (getAlgorithm o.stmt)) ciEnc
         (getSignature o.stmt))) = true := by
       rw [run_askBool, C12.algX509_spec]; exact hsig
-    have hhw' := (run_hardwareDetailsOK _ _).2 hhw
+    have hhw' := (run_hardwareDetailsOK _).2 hhw
     subst hnalg
     simp [verifyTPM, hx', hciRaw, hci, hpaRaw, hpa, hA', hK', hpk, hkeq, hgen, htag, hmagic, htype, hextra', hpaEnc,
       hcert, hname, hhid, hnameOK', hciEnc, hsig', hver, hhw', hoid, heku, hca]
@@ -683,10 +681,19 @@ theorem tpm_requirements (env : Prog.Env) (o : AttObj) (h : Bytes) (res : Result
 /-- T8–T10: an accepted TPM statement's AIK certificate carries, in the first directory name of its SAN, a manufacturer attribute naming a
     registered vendor together with non-empty model and version attributes -/
 theorem tpm_hardware_details (env o h res) (hr : Prog.run env (verifyTPM o h) = some res) :
-    ∃ der rest exts details, res.x5c = der :: rest ∧ env.answer (.sanView der) = .san exts ∧ Tpm.detailsFromSan exts = some details := by
-  obtain ⟨der, c, rest, _, _, _, _, _, _, _, _, _, _, _, _, _, _, _, _, _, _, _, _, _, _, _, _, _, _, _, _, _, _, _, _, _, _, _, _, _,
-    ⟨exts, details, hsan, hdet⟩, _, _, rfl⟩ := (tpm_requirements env o h res hr).body
-  exact ⟨der, rest.map (·.1), exts, details, rfl, hsan, hdet⟩
+    ∃ der c rest details, res.x5c = der :: rest.map (·.1) ∧ X5c env o.stmt ((der, c) :: rest) ∧
+      env.answer (.x509Parse der) = .cert c ∧ Tpm.detailsFromSan (sanViews c) = some details := by
+  obtain ⟨der, c, rest, _, _, _, _, _, _, _, _, _, _, _, _, _, _, hx, _, _, _, _, _, _, _, _, _, _, _, _, _, _, _, _, _, _, _, _, _, _,
+    ⟨details, hdet⟩, _, _, rfl⟩ := (tpm_requirements env o h res hr).body
+  obtain ⟨xs, hget, hl⟩ := hx
+  have hparse : env.answer (.x509Parse der) = .cert c := by
+    cases xs with
+    | nil => exact absurd hl (by simp [X5cList])
+    | cons v vs =>
+      cases v with
+      | bytes b => obtain ⟨rfl, hp, _⟩ := hl; exact hp
+      | _ => exact absurd hl (by simp [X5cList])
+  exact ⟨der, c, rest, details, rfl, ⟨xs, hget, hl⟩, hparse, hdet⟩
 
 theorem androidKey_requirements (env : Prog.Env) (o : AttObj) (h : Bytes) (res : Result)
     (hr : Prog.run env (verifyAndroidKey o h) = some res) : AndroidKeyOK env o h res :=
